@@ -591,7 +591,7 @@ func init() {
 		},
 		Real:        append([]string{"HTTPProxy.Run / run loop, martian.Proxy.Shutdown / Close / Serve / handleLoop, closing() checks, listener and dialer metrics"}, realForwarder...),
 		Stub:        stubCommon,
-		Rule:        "1-6 client connections in drawn phases when the shutdown request fires (idle, served then idle, request at an origin with latency 0-120 s, head half sent, tunnel copying, response backed up against a slow reader, client vanishing, request sent on an idle connection after shutdown began, connection opened after shutdown began) on a plain or TLS listener with large or tiny link capacity; the shutdown request is a scheduler event that may fire at any step after its earliest time. History oracle over (origin log, shutdown event, Run return) with global sequence numbers + socket ledger + listener_cx_active. Non-trivial = Run returned and all clients were judged.",
+		Rule:        "1-6 client connections in drawn phases when the shutdown request fires (idle, served then idle, request at an origin with latency 0-120 s, head half sent, tunnel copying, response backed up against a slow reader, client vanishing, request sent on an idle connection after shutdown began, connection opened after shutdown began) on a plain or TLS listener with large or tiny link capacity; the shutdown request is a scheduler event that may fire at any step after its earliest time. History oracle over (origin log, shutdown event, Run return) with global sequence numbers + socket ledger + listener_cx_active. Non-trivial = Run returned and all clients were judged. Later additions: drain limit 30 s / 90 s / none, uptime 0 s..4000 s before the first client, PROXY-protocol listener with late headers, compressed origin replies, the shutdown request in the same scheduler step as accepts.",
 		Assumptions: []string{"an exchange is 'in flight' for rule (a) when the scripted origin logged its request before the shutdown event and answers at least 10 s before the drain limit (30 s shipped, 90 s, or none) expires"},
 	})
 }
